@@ -39,8 +39,11 @@
 (*                                                                         *)
 (* Fixed = TRUE is the design the property asks for; Fixed = FALSE is what *)
 (* vgirpc did when this module was written (see PointerRefused and         *)
-(* Stream_Input_Unresolvable): kept as named alternatives so that the      *)
-(* defect can be exhibited on the model (NEG_asis.cfg).                    *)
+(* Stream_Input_Unresolvable): kept as named alternatives.  NEG_asis.cfg   *)
+(* model-checks the pre-fix design (InFrame, NeverDies, RogueRefused and   *)
+(* OneResponsePerCall are violated); GenE_asis.cfg generates its           *)
+(* behaviours (replayed with every key judged they match the pre-fix code  *)
+(* exactly, as the Fixed = TRUE behaviours match the patched code).        *)
 (***************************************************************************)
 EXTENDS Naturals, Sequences, FiniteSets, TLC, VerifEmit
 
